@@ -12,6 +12,7 @@ import Driver.Ids
 import Driver.Bufio
 import Driver.LineRec
 import Driver.InlineLoop
+import Driver.Reader
 namespace Driver
 
 def handle (line : String) : String :=
@@ -31,6 +32,7 @@ def handle (line : String) : String :=
   | "bufio" :: rest => handleBufio rest
   | "linerec" :: rest => handleLineRec rest
   | "inlineloop" :: rest => handleInlineLoop rest
+  | "reader" :: rest => handleReader rest
   | _ => bad
 
 partial def loop (hin hout : IO.FS.Stream) : IO Unit := do
